@@ -174,3 +174,56 @@ def _seq_elements(ip, cn, t):
         else:
             out.append((e, [c for c in conds if c[0] not in ("inloop", "fact")]))
     return out
+
+
+def truth_of_returns(cn, returns):
+    """formula of "the function returns a true value", whichever way the result is produced:
+    `return True` on some paths (inside loops: for some iteration), a returned boolean
+    expression, `any(...)` / `all(...)`, a flag variable"""
+    from sa.canon import f_or, f_and
+    out = []
+    for pc, t in returns:
+        items = [c for c in pc if c[0] != "fact"]
+        if t[0] == "const":
+            if t[1]:
+                out.append(cn._conj_exists(items, {}))
+            continue
+        # the value is itself a condition: conjoin it inside the innermost loop of the path
+        out.append(cn._conj_exists(items + [t], {}))
+    return f_or(out) if out else ("false",)
+
+
+def summation(ip, cn, events, v):
+    """a value that is a running sum, however it is written: (initial term, [(added term, [loop
+    iterables], [condition terms inside the loops])]) for `x = 0; for ..: if ..: x += t` and for
+    `sum(t for .. in .. if ..)`; None when `v` is neither"""
+    if v is None:
+        return None
+    if v[0] == "loopout":
+        name = v[1]
+        parts = []
+        for ev in events:
+            if ev.kind == "accum" and ev.data["name"] == name:
+                if ev.data["op"] != "+":
+                    return None
+                loops, inside, seen = [], [], False
+                for c in ev.pc:
+                    if c[0] == "inloop":
+                        seen = True
+                        info = ip.loops.get(c[1], {})
+                        loops.append(cn.show(info["iter"]) if info.get("iter") is not None
+                                     else "while")
+                    elif seen and c[0] != "fact":
+                        inside.append(c)
+                parts.append((ev.data["value"], loops, inside, ev))
+        return v[3], parts
+    if v[0] == "call" and v[1] == "builtins.sum" and v[2]:
+        c = v[2][0]
+        init = v[2][1] if len(v[2]) > 1 else C(0)
+        if c[0] == "comp" and c[1] in ("list", "gen"):
+            loops, conds = [], []
+            for lid, it, cs in c[3]:
+                loops.append(cn.show(it))
+                conds.extend(x for x in cs if x[0] not in ("inloop", "fact"))
+            return init, [(c[2][0], loops, conds, None)]
+    return None
